@@ -500,6 +500,7 @@ def solve_sat(
                 unassign_to(0)
                 dec_level = 0
                 reduce_db()
+                prop_head = 0  # watches were rebuilt, re-examine level-0 literals
 
             conflict = propagate()
             continue
@@ -518,7 +519,7 @@ def solve_sat(
             blocking = [(-v if vals[v] == 1 else v) for v in range(1, n_vars + 1) if vals[v] != UNDEF]
             clause_idx = len(clauses) + len(learned)
             learned.append(blocking)
-            lbd_scores.append(n_vars)
+            lbd_scores.append(0)  # never dropped by reduce_db: removing it would re-admit this model
             if _verif_sink is not None:
                 _verif_sink("learned", list(blocking), True, 0)
 
